@@ -425,6 +425,7 @@ func targets() []*target {
 		bufT("Write", "buf_write", []string{"(f_isnil : gslice -> bool)", "(f_growSlice : gslice -> Z -> bres gslice unit)", "(p : gslice)"}, "bres (Z * err) bstate", "", true),
 		bufT("WriteString", "buf_write_string", []string{"(f_isnil : gslice -> bool)", "(f_growSlice : gslice -> Z -> bres gslice unit)", "(str : bytes)"}, "bres (Z * err) bstate", "", true),
 		bufT("WriteByte", "buf_write_byte", []string{"(f_isnil : gslice -> bool)", "(f_growSlice : gslice -> Z -> bres gslice unit)", "(c : Z)"}, "bres err bstate", "", true),
+		bufT("WriteRune", "buf_write_rune", []string{"(f_isnil : gslice -> bool)", "(f_growSlice : gslice -> Z -> bres gslice unit)", "(r : Z)"}, "bres (Z * err) bstate", "", true),
 		bufT("WriteTo", "buf_write_to", []string{"(w : unit)", "(w_m : Z)", "(w_e : err)", "(tr_ : list bytes)"}, "bres (Z * err) (bstate * list bytes)", "", true),
 		// the io.Reader is a script (Model/Buffer.v rresp): an answer per call, delivered into the window it is handed,
 		// which must be s.buf[..:cap(s.buf)] (checked): the bytes land in the spare capacity of s.buf
@@ -480,6 +481,9 @@ func bufT(fn, coq string, params []string, result, final string, eff bool) *targ
 			"*PrintCtx.tryGrowByReslice": {state: "buf_try_grow s_buf s_off s_lastRead %0", bres: true, sub: []string{"s_buf", "s_off", "s_lastRead"}},
 			"*PrintCtx.grow":             {state: "buf_grow_int s_buf s_off s_lastRead f_isnil f_growSlice %0", bres: true, sub: []string{"s_buf", "s_off", "s_lastRead"}},
 			"growSlice":                  {state: "f_growSlice %0 %1", bres: true},
+			"*PrintCtx.WriteByte":        {state: "buf_write_byte s_buf s_off s_lastRead f_isnil f_growSlice %0", bres: true, sub: []string{"s_buf", "s_off", "s_lastRead"}, ignoreRes: true},
+			// utf8.AppendRune(b, r) where the encoding fits into the spare capacity of b (None: it would reallocate - not modelled)
+			"utf8.AppendRune":            {pure: "sl_append_in %0 (encode_rune %1)", partial: true},
 			"utf8.DecodeRune":            {res: "decode_rune_z (sl_bytes %0)"},
 			"utf8.DecodeRuneInString":    {res: "decode_rune_z %0"},
 		}}
